@@ -548,6 +548,7 @@ package keyvalue
 //@                      world() == old(worldAfterW("keyvalue.(Store).Set", storeGetW(fsStore(f.fileData.fs), f.fileData.path), fsStore(f.fileData.fs), nil, f.fileData.path, f.fileData))))
 //@   ensures "namespace" [C17 C03] implies(isMem(f.fileData.fs), memSameExcept(f.fileData.fs, f.fileData.path))
 //@   ensures "no-resurrect" [C17] implies(isMem(f.fileData.fs) && !old(kvHas(f.fileData.fs, f.fileData.path)), !kvHas(f.fileData.fs, f.fileData.path))
+//@   ensures "no-replace-other-kind" [C17 C03] implies(isMem(f.fileData.fs) && old(kvHas(f.fileData.fs, f.fileData.path)) && old(memIsDir(f.fileData.fs, f.fileData.path)) != old(fIsDir(f)), memSame(f.fileData.fs))
 //@   ensures "data-ok" hDataOK(f)
 //@   ensures "keeps-name" [C03 C17] implies(isMem(f.fileData.fs) && old(kvHas(f.fileData.fs, f.fileData.path)), kvHas(f.fileData.fs, f.fileData.path))
 //@   ensures "mem-world" implies(isMem(f.fileData.fs), world() == old(world()))
@@ -585,6 +586,7 @@ package keyvalue
 //@   ensures "inv" fileInv(f) && f.closed == old(f.closed)
 //@   ensures "namespace" [C17 C03] implies(isMem(f.fileData.fs), memSameExcept(f.fileData.fs, f.fileData.path))
 //@   ensures "no-resurrect" [C17] implies(isMem(f.fileData.fs) && !old(kvHas(f.fileData.fs, f.fileData.path)), !kvHas(f.fileData.fs, f.fileData.path))
+//@   ensures "no-replace-other-kind" [C17 C03] implies(isMem(f.fileData.fs) && old(kvHas(f.fileData.fs, f.fileData.path)) && old(memIsDir(f.fileData.fs, f.fileData.path)) != old(fIsDir(f)), memSame(f.fileData.fs))
 //@   ensures "data-ok" hDataOK(f)
 //@   ensures "keeps-name" [C03 C17] implies(isMem(f.fileData.fs) && old(kvHas(f.fileData.fs, f.fileData.path)), kvHas(f.fileData.fs, f.fileData.path))
 //@   ensures "mem-world" implies(isMem(f.fileData.fs), world() == old(world()))
@@ -609,6 +611,7 @@ package keyvalue
 //@   ensures "inv" fileInv(f) && f.offset == old(f.offset) && f.closed == old(f.closed)
 //@   ensures "namespace" [C17 C03] implies(isMem(f.fileData.fs), memSameExcept(f.fileData.fs, f.fileData.path))
 //@   ensures "no-resurrect" [C17] implies(isMem(f.fileData.fs) && !old(kvHas(f.fileData.fs, f.fileData.path)), !kvHas(f.fileData.fs, f.fileData.path))
+//@   ensures "no-replace-other-kind" [C17 C03] implies(isMem(f.fileData.fs) && old(kvHas(f.fileData.fs, f.fileData.path)) && old(memIsDir(f.fileData.fs, f.fileData.path)) != old(fIsDir(f)), memSame(f.fileData.fs))
 //@   ensures "data-ok" hDataOK(f)
 //@   ensures "keeps-name" [C03 C17] implies(isMem(f.fileData.fs) && old(kvHas(f.fileData.fs, f.fileData.path)), kvHas(f.fileData.fs, f.fileData.path))
 //@   ensures "mem-world" implies(isMem(f.fileData.fs), world() == old(world()))
@@ -630,6 +633,7 @@ package keyvalue
 //@   ensures "inv" fileInv(f) && f.offset == old(f.offset) && f.closed == old(f.closed)
 //@   ensures "namespace" [C17 C03] implies(isMem(f.fileData.fs), memSameExcept(f.fileData.fs, f.fileData.path))
 //@   ensures "no-resurrect" [C17] implies(isMem(f.fileData.fs) && !old(kvHas(f.fileData.fs, f.fileData.path)), !kvHas(f.fileData.fs, f.fileData.path))
+//@   ensures "no-replace-other-kind" [C17 C03] implies(isMem(f.fileData.fs) && old(kvHas(f.fileData.fs, f.fileData.path)) && old(memIsDir(f.fileData.fs, f.fileData.path)) != old(fIsDir(f)), memSame(f.fileData.fs))
 //@   ensures "data-ok" hDataOK(f)
 //@   ensures "keeps-name" [C03 C17] implies(isMem(f.fileData.fs) && old(kvHas(f.fileData.fs, f.fileData.path)), kvHas(f.fileData.fs, f.fileData.path))
 //@   ensures "mem-world" implies(isMem(f.fileData.fs), world() == old(world()))
@@ -654,6 +658,7 @@ package keyvalue
 //@                     *f.fileData.modeOverride == (old(ite(f.fileData.modeOverride != nil, *f.fileData.modeOverride, modeOf(fRec(f)))) & ^chmodBits) | (mode & chmodBits))
 //@   ensures "namespace" [C17 C03] implies(isMem(f.fileData.fs), memSameExcept(f.fileData.fs, f.fileData.path))
 //@   ensures "no-resurrect" [C17] implies(isMem(f.fileData.fs) && !old(kvHas(f.fileData.fs, f.fileData.path)), !kvHas(f.fileData.fs, f.fileData.path))
+//@   ensures "no-replace-other-kind" [C17 C03] implies(isMem(f.fileData.fs) && old(kvHas(f.fileData.fs, f.fileData.path)) && old(memIsDir(f.fileData.fs, f.fileData.path)) != old(fIsDir(f)), memSame(f.fileData.fs))
 //@   ensures "stored" [C01] implies(isMem(f.fileData.fs) && !f.closed && old(kvHas(f.fileData.fs, f.fileData.path)) && old(fdDataErr(f.fileData)) == nil &&
 //@                     old(memIsDir(f.fileData.fs, f.fileData.path)) == (old(fdMode(f.fileData)) & hackpadfs.ModeDir != 0), err == nil &&
 //@                     memRec(f.fileData.fs, f.fileData.path).mode == *f.fileData.modeOverride)
@@ -723,6 +728,7 @@ package keyvalue
 //@   ensures "inv" fileInv(f) && f.closed == old(f.closed)
 //@   ensures "namespace" [C17 C03] implies(isMem(f.fileData.fs), memSameExcept(f.fileData.fs, f.fileData.path))
 //@   ensures "no-resurrect" [C17] implies(isMem(f.fileData.fs) && !old(kvHas(f.fileData.fs, f.fileData.path)), !kvHas(f.fileData.fs, f.fileData.path))
+//@   ensures "no-replace-other-kind" [C17 C03] implies(isMem(f.fileData.fs) && old(kvHas(f.fileData.fs, f.fileData.path)) && old(memIsDir(f.fileData.fs, f.fileData.path)) != old(fIsDir(f)), memSame(f.fileData.fs))
 //@   ensures "data-ok" hDataOK(f)
 //@   ensures "keeps-name" [C03 C17] implies(isMem(f.fileData.fs) && old(kvHas(f.fileData.fs, f.fileData.path)), kvHas(f.fileData.fs, f.fileData.path))
 //@   ensures "mem-world" implies(isMem(f.fileData.fs), world() == old(world()))
@@ -745,6 +751,7 @@ package keyvalue
 //@   ensures "inv" fileInv(f) && f.offset == old(f.offset) && f.closed == old(f.closed)
 //@   ensures "namespace" [C17 C03] implies(isMem(f.fileData.fs), memSameExcept(f.fileData.fs, f.fileData.path))
 //@   ensures "no-resurrect" [C17] implies(isMem(f.fileData.fs) && !old(kvHas(f.fileData.fs, f.fileData.path)), !kvHas(f.fileData.fs, f.fileData.path))
+//@   ensures "no-replace-other-kind" [C17 C03] implies(isMem(f.fileData.fs) && old(kvHas(f.fileData.fs, f.fileData.path)) && old(memIsDir(f.fileData.fs, f.fileData.path)) != old(fIsDir(f)), memSame(f.fileData.fs))
 //@   ensures "data-ok" hDataOK(f)
 //@   ensures "keeps-name" [C03 C17] implies(isMem(f.fileData.fs) && old(kvHas(f.fileData.fs, f.fileData.path)), kvHas(f.fileData.fs, f.fileData.path))
 //@   ensures "mem-world" implies(isMem(f.fileData.fs), world() == old(world()))
